@@ -20,6 +20,7 @@ SCALARS = [("isi_distance", ("MRTS",), True), ("spike_distance", ("MRTS", "RI"),
            ("spike_train_order", ("MRTS", "max_tau"), False)]
 MATRICES = [("isi_distance_matrix", ("MRTS",), True), ("spike_distance_matrix", ("MRTS", "RI"), True),
             ("spike_sync_matrix", ("MRTS", "max_tau"), True), ("spike_directionality_matrix", ("MRTS", "max_tau"), False)]
+SCALAR_OF_MATRIX = {"isi_distance_matrix": "isi_distance", "spike_distance_matrix": "spike_distance", "spike_sync_matrix": "spike_sync"}
 MULTI = {"isi_profile": "isi_profile_multi", "spike_profile": "spike_profile_multi", "spike_sync_profile": "spike_sync_profile_multi",
          "spike_train_order_profile": "spike_train_order_profile_multi", "isi_distance": "isi_distance_multi",
          "spike_distance": "spike_distance_multi", "spike_sync": "spike_sync_multi", "spike_train_order": "spike_train_order_multi"}
@@ -34,7 +35,7 @@ class Prop(BaseProp):
             "executions. distinct = (interleaving word, keyword regime, index selection)")
     budget = {"quick": 500, "thorough": 50000}
     must_see = ["indices_not_sorted", "indices_skip_0", "indices_size_2", "indices_size_N", "indices_non_prefix",
-                "interval_given", "max_tau_positive", "mrts_positive", "mrts_auto", "RI_true", "three_arg_form"] + \
+                "interval_given", "interval_list_given", "interval_list_3+", "max_tau_positive", "mrts_positive", "mrts_auto", "RI_true", "three_arg_form"] + \
                ["m:" + n for n, _ in PROFILES] + ["m:" + n for n, _, _ in SCALARS] + ["m:" + n for n, _, _ in MATRICES] + ["m:spike_directionality_values"]
     arm_files = [("pyspike/generic.py", None), ("pyspike/spike_directionality.py", None), ("pyspike/spike_sync.py", None)]
     assumptions = ["MRTS='auto' pools the trains a call sees (pair vs whole list), so it is only compared between forms that "
@@ -48,6 +49,8 @@ class Prop(BaseProp):
                 bps = sorted({t for s in case["trains"] for t in s})
                 a, b, kd = gen.pick_interval(rng, case["ts"], case["te"], bps)
                 case["interval"] = [a, b]
+                if rng.random() < 0.3:
+                    case["interval"] = gen.pick_interval_list(rng, case["ts"], case["te"], bps)
             else:
                 case["interval"] = None
             yield case
@@ -69,6 +72,11 @@ class Prop(BaseProp):
         ivt = None if iv is None else (iv[0], iv[1])
         if iv is not None:
             ctx.count("interval_given")
+            if isinstance(iv[0], (list, tuple)):
+                ivt = [tuple(w) for w in iv]
+                ctx.count("interval_list_given")
+                if len(iv) >= 3:
+                    ctx.count("interval_list_3+")
         ctx.sample({"trains": tr, "edges": [case["ts"], case["te"]], "kw": kwc, "indices": idx, "interval": iv})
 
         def eq(r1, r2, what, label):
@@ -132,6 +140,12 @@ class Prop(BaseProp):
                 continue
             m_sub = ctx.call(fn, sub, **kw)
             m_idx = ctx.call(fn, sts, indices=common.vary_indices(ctx, idx), **kw)
+            if name in SCALAR_OF_MATRIX:
+                # the matrix form honours the keywords like the two-train form: entry [0,1] is f(sub[0], sub[1])
+                v01 = ctx.call(getattr(ps, SCALAR_OF_MATRIX[name]), sub[0], sub[1], **kw)
+                M_ = np.asarray(m_sub, dtype=float)
+                if M_.ndim == 2 and M_.shape[0] >= 2:
+                    ctx.close(M_[0, 1], v01, "forms:%s:entry!=f(a,b)" % name, "%s(sub)[0,1] vs %s(sub[0], sub[1]) kw=%r" % (name, SCALAR_OF_MATRIX[name], kw), rel=1e-12)
             eq(m_idx, m_sub, "forms:%s:f(L,indices=common.vary_indices(ctx, idx))!=f(sub)" % name, "%s(L, indices=%r) vs %s(sub) kw=%r" % (name, idx, name, kw))
 
 
